@@ -6,11 +6,11 @@ package main
 
 import (
 	"fmt"
-	"os"
-	"strconv"
 	"go/token"
 	"go/types"
+	"os"
 	"sort"
+	"strconv"
 	"strings"
 	"sync"
 
@@ -503,6 +503,26 @@ func (r *run) schedule(canContinue bool) {
 		for _, tm := range r.timers {
 			if !tm.fired && !tm.stopped {
 				tms = append(tms, schedOption{tm: tm})
+			}
+		}
+		if len(tms) > 1 && r.h.concreteClock {
+			// logical time is faithful: timers fire in deadline order (creation order breaks
+			// ties, and only tied timers are alternatives to each other); a timer goroutine
+			// that is scheduled late is modelled by delaying the thread it wakes
+			sort.SliceStable(tms, func(i, j int) bool {
+				di, oki := parseSmtInt(tms[i].tm.deadline)
+				dj, okj := parseSmtInt(tms[j].tm.deadline)
+				return oki && okj && di < dj
+			})
+			if d0, ok := parseSmtInt(tms[0].tm.deadline); ok && !r.raceTimers {
+				n := 1
+				for n < len(tms) {
+					if d, ok := parseSmtInt(tms[n].tm.deadline); !ok || d != d0 {
+						break
+					}
+					n++
+				}
+				tms = tms[:n]
 			}
 		}
 		if len(tms) > 0 {
